@@ -744,7 +744,7 @@ CONSTANTS
  Locals = {L1}
  Cids = %(cids)s
  MaxQos = %(maxqos)d
- MixedLevels = {"a+"}
+ MixedLevels = {"a+", "c#"}
  MaxSteps = %(depth)d
 INVARIANTS TypeOK %(emit)s
 PROPERTIES StepProps
@@ -845,9 +845,11 @@ def q2many(v, tier):
 
 @check("C02")
 def c02(tier):
-    return broker_check("C02", tier, [("QosSpec", "paths", 6, 7, "mockSuccess")], {"C02", "C01"},
+    return broker_check("C02", tier, [("QosSpec", "paths", 6, 7, "mockSuccess"), ("QosStraySpec", "paths", 6, 7, "mockSuccess")], {"C02", "C01"},
                         "configuration qosrx: all operation sequences over QoS 2 PUBLISH (2 ids, DUP repeats with other content), PUBREL (3 ids incl. "
                         "unknown), QoS 1 PUBLISH and 6 KB unrelated traffic that wraps the ring; acks on the publisher, hand-over to a witness subscriber. "
+                        "Configuration qosstray: two exchanges released in any order with stray PUBREC / PUBCOMP / PUBACK / SUBACK / UNSUBACK packets that carry "
+                        "the identifier of an open exchange in between. "
                         "Plus TLC -simulate behaviours with up to 40 exchanges open at once (the incoming queue grows while its head has moved).",
                         extra=lambda v: q2many(v, tier), frag_item=0)
 
